@@ -681,6 +681,13 @@ pub fn replay_bounded(unit: &str) -> Option<i32> {
         "b_generate_constructed" => run_grid(unit, contract_generate_constructed, limit),
         "b_c04_component_bounds" => run_grid(unit, contract_generate_component_bounds, limit),
         "b_generate_enumerated" => run_grid(unit, contract_generate_enumerated, limit),
+        "b_c05_nested_enumerated" => run_grid(unit, contract_generate_nested_enumerated, limit),
+        "b_c02_components_of_import" => run_grid(unit, contract_components_of_import, limit),
+        "b_c02_nested_collections" => run_grid(unit, contract_generate_nested_collections, limit),
+        "b_c03_tagged_assignment" => run_grid(unit, contract_generate_tagged_assignment, limit),
+        "b_c06_literal_rendering" => run_grid(unit, contract_literal_rendering, limit),
+        "b_c07_array_value" => run_grid(unit, contract_array_value_keeps_all_elements, limit),
+        "b_c07_defaults_linked" => run_grid(unit, contract_defaults_linked_at_every_position, limit),
         "b_c04_contained_subtype" => run_grid(unit, contract_contained_subtype_in_set_expression, limit),
         "b_c04_own_named_number" => run_grid(unit, contract_own_named_number, limit),
         "b_c02_validator_passes" => run_grid(unit, contract_validator_marks_recursion_despite_warnings, limit),
@@ -2045,6 +2052,8 @@ pub fn contract_own_named_number<C: Ctx>(cx: &mut C) {
                     ok = ok && got == Some((Some(0), Some(10 * (i as i128 + 1))));
                 }
                 vob!(cx, "C04.own_named_number.bound_resolved_to_the_types_own_number", ok);
+                // C06: the width of the type is chosen from this bound
+                vob!(cx, "C06.own_named_number.width_is_chosen_from_the_types_own_bound", ok);
             }
             Err(_) => { vob!(cx, "C04.own_named_number.validates", false); }
         }
@@ -2090,6 +2099,244 @@ pub fn contract_contained_subtype_in_set_expression<C: Ctx>(cx: &mut C) {
             // an expression the folding rejects is reported as a warning by the generator; not asserted here
             Err(_) => {}
         }
+    }
+    #[cfg(kani)]
+    { let _ = cx; }
+}
+
+/// C02 — COMPONENTS OF (X.680 §25.5): `ASN1Type::link_components_of_notation` copies exactly the ROOT components of
+/// the referenced SEQUENCE — not its extension additions — and keeps the including type's own components.
+pub fn contract_components_of_import<C: Ctx>(cx: &mut C) {
+    #[cfg(not(kani))]
+    {
+        use crate::intermediate::types::*;
+        use std::collections::BTreeMap;
+        let n_root = cx.choose(3);
+        let base_marker = cx.any_bool();
+        let n_add = if base_marker { cx.choose(3) } else { 0 };
+        let outer_marker = cx.any_bool();
+        let m = |name: String| SequenceOrSetMember { name, tag: None, ty: ASN1Type::Boolean(Boolean { constraints: vec![] }), optionality: Optionality::Optional, is_recursive: false, constraints: vec![] };
+        let mut members: Vec<SequenceOrSetMember> = (0..n_root).map(|i| m(format!("r{i}"))).collect();
+        members.extend((0..n_add).map(|i| m(format!("x{i}"))));
+        let base = ASN1Type::Sequence(SequenceOrSet { components_of: vec![], extensible: if base_marker { Some(n_root) } else { None }, constraints: vec![], members });
+        let mut tlds: BTreeMap<String, ToplevelDefinition> = BTreeMap::new();
+        tlds.insert("Base".into(), ToplevelDefinition::Type(ToplevelTypeDefinition { comments: String::new(), tag: None, name: "Base".into(), ty: base, parameterization: None, module_header: None }));
+        let mut outer = ASN1Type::Sequence(SequenceOrSet { components_of: vec!["Base".into()], extensible: if outer_marker { Some(1) } else { None }, constraints: vec![], members: vec![m("z".into())] });
+        cx.describe(|| format!("Base ::= SEQUENCE {{ {} root components{} }}; Outer ::= SEQUENCE {{ z BOOLEAN, COMPONENTS OF Base{} }}", n_root, if base_marker { format!(", ..., {n_add} additions") } else { String::new() }, if outer_marker { ", ..." } else { "" }));
+        let linked = outer.link_components_of_notation(&tlds);
+        vob!(cx, "C02.components_of.linking_reported", linked);
+        if let ASN1Type::Sequence(s) = &outer {
+            let mut names: Vec<String> = s.members.iter().map(|x| x.name.clone()).collect();
+            names.sort();
+            let mut want: Vec<String> = std::iter::once("z".to_string()).chain((0..n_root).map(|i| format!("r{i}"))).collect();
+            want.sort();
+            vob!(cx, "C02.components_of.exactly_the_root_components_are_imported_once", names == want);
+        }
+    }
+    #[cfg(kani)]
+    { let _ = cx; }
+}
+
+/// C02 — collections of collections keep their kind: `Rasn::generate_sequence_or_set_of` for
+/// `T ::= {SEQUENCE|SET} OF {SEQUENCE|SET} OF <element>` (element BOOLEAN or a type reference).
+pub fn contract_generate_nested_collections<C: Ctx>(cx: &mut C) {
+    #[cfg(not(kani))]
+    {
+        use crate::intermediate::types::*;
+        use crate::generator::Backend;
+        use std::{cell::RefCell, rc::Rc};
+        let outer_set = cx.any_bool();
+        let inner_set = cx.any_bool();
+        let by_reference = cx.any_bool();
+        let as_component = cx.any_bool();
+        let elem = if by_reference { ASN1Type::ElsewhereDeclaredType(DeclarationElsewhere { parent: None, module: None, identifier: "Row".into(), constraints: vec![] }) } else { ASN1Type::Boolean(Boolean { constraints: vec![] }) };
+        let of = |set: bool, e: ASN1Type| { let o = SequenceOrSetOf { constraints: vec![], element_type: Box::new(e), element_tag: None, is_recursive: false }; if set { ASN1Type::SetOf(o) } else { ASN1Type::SequenceOf(o) } };
+        let coll = of(outer_set, of(inner_set, elem));
+        let ty = if as_component { ASN1Type::Sequence(SequenceOrSet { components_of: vec![], extensible: None, constraints: vec![], members: vec![SequenceOrSetMember { name: "f0".into(), tag: None, ty: coll, optionality: Optionality::Required, is_recursive: false, constraints: vec![] }] }) } else { coll };
+        cx.describe(|| format!("T ::= {}{} OF {} OF {}{}", if as_component { "SEQUENCE { f0 " } else { "" }, if outer_set { "SET" } else { "SEQUENCE" }, if inner_set { "SET" } else { "SEQUENCE" }, if by_reference { "Row" } else { "BOOLEAN" }, if as_component { " }" } else { "" }));
+        let h = Rc::new(RefCell::new(ModuleHeader { name: "M".into(), module_identifier: None, encoding_reference_default: None, tagging_environment: TaggingEnvironment::Automatic, extensibility_environment: ExtensibilityEnvironment::Explicit, imports: vec![], exports: None }));
+        let tld = ToplevelDefinition::Type(ToplevelTypeDefinition { comments: String::new(), tag: None, name: "T".into(), ty, parameterization: None, module_header: Some(h) });
+        let mut backend = crate::generator::rasn::Rasn::default();
+        let generated = match backend.generate_module(vec![tld]) { Ok(m) if m.warnings.is_empty() => m.generated.unwrap_or_default(), _ => { vob!(cx, "C02.generate.nested_collection_is_generated", false); return; } };
+        // count the collection wrappers that appear in the generated items for T (outer first)
+        // for a component only the field's type counts (the constructor repeats it)
+        let scope: String = if as_component { item_of(&generated, "T").map(|(_, f)| f.join(" , ")).unwrap_or_default() } else { generated.clone() };
+        let kinds: Vec<&str> = scope.match_indices("Of <").map(|(i, _)| if scope[..i].ends_with("Set") { "Set" } else { "Sequence" }).collect();
+        let n_set = kinds.iter().filter(|k| **k == "Set").count();
+        vob!(cx, "C02.generate.set_of_and_sequence_of_are_kept_at_every_level", kinds.len() == 2 && n_set == (outer_set as usize + inner_set as usize));
+    }
+    #[cfg(kani)]
+    { let _ = cx; }
+}
+
+/// C03 — a tag on a type assignment of a builtin type: explicit exactly when the resolved mode is EXPLICIT, or the
+/// type is a CHOICE or an open type (X.680 §31.2.7 c); EXTERNAL / EMBEDDED PDV / ANY are ordinary types.
+pub fn contract_generate_tagged_assignment<C: Ctx>(cx: &mut C) {
+    #[cfg(not(kani))]
+    {
+        use crate::intermediate::types::*;
+        use crate::generator::Backend;
+        use std::{cell::RefCell, rc::Rc};
+        let env = any_tagenv(cx);
+        let kinds: Vec<(&str, ASN1Type)> = vec![
+            ("NULL", ASN1Type::Null), ("BOOLEAN", ASN1Type::Boolean(Boolean { constraints: vec![] })), ("INTEGER", ASN1Type::Integer(Integer { constraints: vec![], distinguished_values: None })),
+            ("OCTET STRING", ASN1Type::OctetString(OctetString { constraints: vec![] })), ("BIT STRING", ASN1Type::BitString(BitString { constraints: vec![], distinguished_values: None })),
+            ("EXTERNAL", ASN1Type::External), ("EMBEDDED PDV", ASN1Type::EmbeddedPdv), ("UTF8String", ASN1Type::CharacterString(CharacterString { constraints: vec![], ty: CharacterStringType::UTF8String })),
+            ("OBJECT IDENTIFIER", ASN1Type::ObjectIdentifier(ObjectIdentifier { constraints: vec![] })),
+            ("SEQUENCE OF BOOLEAN", ASN1Type::SequenceOf(SequenceOrSetOf { constraints: vec![], element_type: Box::new(ASN1Type::Boolean(Boolean { constraints: vec![] })), element_tag: None, is_recursive: false })),
+            ("ENUMERATED", ASN1Type::Enumerated(Enumerated { members: vec![Enumeral { name: "a".into(), description: None, index: 0 }], extensible: None, constraints: vec![] })),
+            ("type reference", ASN1Type::ElsewhereDeclaredType(DeclarationElsewhere { parent: None, module: None, identifier: "Other".into(), constraints: vec![] })),
+        ];
+        let (name, ty) = kinds[cx.choose(kinds.len())].clone();
+        // the tag as it looks after apply_tagging_environment: keyword-less in a module with default `env`
+        let tag = AsnTag { environment: env, tag_class: TagClass::Application, id: 8 };
+        cx.describe(|| format!("module_default={env:?} T ::= [APPLICATION 8] {name}"));
+        let h = Rc::new(RefCell::new(ModuleHeader { name: "M".into(), module_identifier: None, encoding_reference_default: None, tagging_environment: env, extensibility_environment: ExtensibilityEnvironment::Explicit, imports: vec![], exports: None }));
+        let tld = ToplevelDefinition::Type(ToplevelTypeDefinition { comments: String::new(), tag: Some(tag), name: "T".into(), ty, parameterization: None, module_header: Some(h) });
+        let mut backend = crate::generator::rasn::Rasn::default();
+        let generated = match backend.generate_module(vec![tld]) { Ok(m) if m.warnings.is_empty() => m.generated.unwrap_or_default(), _ => { vob!(cx, "C03.generate.tagged_assignment_is_generated", false); return; } };
+        let explicit_form = "tag (explicit (application , 8))";
+        let implicit_form = "tag (application , 8)";
+        vob!(cx, "C03.generate.tagged_builtin_assignment_explicit_iff_resolved_mode_is_explicit",
+            if env == TaggingEnvironment::Explicit { generated.contains(explicit_form) } else { generated.contains(implicit_form) && !generated.contains(explicit_form) });
+    }
+    #[cfg(kani)]
+    { let _ = cx; }
+}
+
+/// C06 — rendering of typed integer literals (`Rasn::value_to_tokens`, LinkedIntValue arm): the emitted literal is the
+/// value, digit for digit, for every width.
+pub fn contract_literal_rendering<C: Ctx>(cx: &mut C) {
+    #[cfg(not(kani))]
+    {
+        let cases: [(IntegerType, i128); 14] = [
+            (IntegerType::Uint8, 0), (IntegerType::Uint8, 255), (IntegerType::Int8, -128), (IntegerType::Uint16, 65535), (IntegerType::Int16, -32768),
+            (IntegerType::Uint32, 4294967295), (IntegerType::Int32, -2147483648), (IntegerType::Uint64, 9223372036854775807), (IntegerType::Uint64, 9223372036854775808),
+            (IntegerType::Uint64, 18446744073709551615), (IntegerType::Int64, -9223372036854775808), (IntegerType::Int64, 9223372036854775807),
+            (IntegerType::Unbounded, 170141183460469231731687303715884105727), (IntegerType::Unbounded, -170141183460469231731687303715884105728),
+        ];
+        let (t, v) = cases[cx.choose(14)];
+        cx.describe(|| format!("literal {v} typed {t:?}"));
+        let backend = crate::generator::rasn::Rasn::default();
+        match backend.value_to_tokens(&ASN1Value::LinkedIntValue { integer_type: t, value: v }, None) {
+            Ok(ts) => {
+                let text = ts.to_string().replace(' ', "");
+                // fixed width: the bare literal; arbitrary precision: Integer::from(<v>i128)
+                let want_fixed = v.to_string();
+                vob!(cx, "C06.literal_rendering.digits_are_the_value", if t == IntegerType::Unbounded { text.contains(&format!("{v}i128")) || text.contains(&format!("({v})")) } else { text == want_fixed || text == format!("-{}", want_fixed.trim_start_matches('-')) && v < 0 });
+            }
+            Err(_) => { vob!(cx, "C06.literal_rendering.renders", false); }
+        }
+    }
+    #[cfg(kani)]
+    { let _ = cx; }
+}
+
+/// C07 — SEQUENCE OF / SET OF values keep every element in order (`ASN1Value::link_with_type` -> link_array_like),
+/// also when one element cannot be resolved.
+pub fn contract_array_value_keeps_all_elements<C: Ctx>(cx: &mut C) {
+    #[cfg(not(kani))]
+    {
+        use crate::intermediate::types::*;
+        use std::collections::BTreeMap;
+        let n = cx.choose(5);
+        let mut kinds = [0usize; 4];
+        let mut elems: Vec<(Option<String>, Box<ASN1Value>)> = vec![];
+        for i in 0..n {
+            kinds[i] = cx.choose(3); // TRUE, FALSE, module-qualified reference that the linker cannot resolve here
+            elems.push((None, Box::new(match kinds[i] { 0 => ASN1Value::Boolean(true), 1 => ASN1Value::Boolean(false), _ => ASN1Value::ElsewhereDeclaredValue { module: Some("Other".into()), parent: None, identifier: "yes".into() } })));
+        }
+        let set = cx.any_bool();
+        let of = SequenceOrSetOf { constraints: vec![], element_type: Box::new(ASN1Type::Boolean(Boolean { constraints: vec![] })), element_tag: None, is_recursive: false };
+        let ty = if set { ASN1Type::SetOf(of) } else { ASN1Type::SequenceOf(of) };
+        cx.describe(|| format!("{} OF BOOLEAN value {{ {} }}", if set { "SET" } else { "SEQUENCE" }, (0..n).map(|i| ["TRUE", "FALSE", "Other.yes"][kinds[i]]).collect::<Vec<_>>().join(", ")));
+        let mut v = ASN1Value::SequenceOrSet(elems);
+        let tlds = BTreeMap::new();
+        let _ = v.link_with_type(&tlds, &ty, None);
+        match &v {
+            ASN1Value::LinkedArrayLikeValue(items) => {
+                let ok = items.len() == n && items.iter().enumerate().all(|(i, it)| match (kinds[i], &**it) { (0, ASN1Value::Boolean(true)) | (1, ASN1Value::Boolean(false)) => true, (2, other) => !matches!(other, ASN1Value::Boolean(_)), _ => false });
+                vob!(cx, "C07.array_value.every_element_kept_in_order", ok);
+            }
+            _ => { vob!(cx, "C07.array_value.becomes_a_linked_array_value", n == 0 && matches!(v, ASN1Value::SequenceOrSet(_)) || false); }
+        }
+    }
+    #[cfg(kani)]
+    { let _ = cx; }
+}
+
+/// C07 — DEFAULT values are linked with their governing type wherever the component sits:
+/// `ToplevelDefinition::collect_supertypes` -> `ASN1Type::collect_supertypes` (SEQUENCE / SET member, nested anonymous
+/// SEQUENCE, SEQUENCE inside a CHOICE alternative).
+pub fn contract_defaults_linked_at_every_position<C: Ctx>(cx: &mut C) {
+    #[cfg(not(kani))]
+    {
+        use crate::intermediate::types::*;
+        use std::collections::BTreeMap;
+        let position = cx.choose(4); // 0 top-level SEQUENCE, 1 top-level SET, 2 anonymous SEQUENCE nested in a SEQUENCE, 3 anonymous SEQUENCE as CHOICE alternative
+        let member = || SequenceOrSetMember { name: "count".into(), tag: None, ty: ASN1Type::Integer(Integer { constraints: vec![], distinguished_values: Some(vec![DistinguishedValue { name: "limit".into(), value: 5 }]) }),
+            optionality: Optionality::Default(if position % 2 == 0 { ASN1Value::Integer(7) } else { ASN1Value::ElsewhereDeclaredValue { module: None, parent: None, identifier: "limit".into() } }), is_recursive: false, constraints: vec![] };
+        let seq = |set: bool| { let s = SequenceOrSet { components_of: vec![], extensible: None, constraints: vec![], members: vec![member()] }; if set { ASN1Type::Set(s) } else { ASN1Type::Sequence(s) } };
+        let ty = match position {
+            0 => seq(false), 1 => seq(true),
+            2 => ASN1Type::Sequence(SequenceOrSet { components_of: vec![], extensible: None, constraints: vec![], members: vec![SequenceOrSetMember { name: "inner".into(), tag: None, ty: seq(false), optionality: Optionality::Required, is_recursive: false, constraints: vec![] }] }),
+            _ => ASN1Type::Choice(Choice { extensible: None, constraints: vec![], options: vec![ChoiceOption { name: "ping".into(), tag: None, ty: seq(false), constraints: vec![], is_recursive: false }] }),
+        };
+        cx.describe(|| format!("DEFAULT {} on an INTEGER {{ limit(5) }} component of {}", if position % 2 == 0 { "7" } else { "limit" }, ["a SEQUENCE", "a SET", "an anonymous SEQUENCE nested in a SEQUENCE", "an anonymous SEQUENCE that is a CHOICE alternative"][position]));
+        let mut tld = ToplevelDefinition::Type(ToplevelTypeDefinition { comments: String::new(), tag: None, name: "T".into(), ty, parameterization: None, module_header: None });
+        let mut tlds: BTreeMap<String, ToplevelDefinition> = BTreeMap::new();
+        // a same-named value elsewhere must not win over the named number
+        tlds.insert("limit".into(), ToplevelDefinition::Value(ToplevelValueDefinition::from(("limit", ASN1Value::Integer(55), ASN1Type::Integer(Integer { constraints: vec![], distinguished_values: None })))));
+        let r = tld.collect_supertypes(&tlds);
+        vob!(cx, "C07.defaults.linking_succeeds", r.is_ok());
+        fn find_default(ty: &ASN1Type) -> Option<&ASN1Value> {
+            match ty {
+                ASN1Type::Sequence(s) | ASN1Type::Set(s) => s.members.iter().find_map(|m| m.optionality.default().or_else(|| find_default(&m.ty))),
+                ASN1Type::Choice(c) => c.options.iter().find_map(|o| find_default(&o.ty)),
+                _ => None,
+            }
+        }
+        fn int_of(v: &ASN1Value) -> Option<i128> { match v { ASN1Value::LinkedIntValue { value, .. } => Some(*value), ASN1Value::LinkedNestedValue { value, .. } => int_of(value), _ => None } }
+        if let ToplevelDefinition::Type(t) = &tld {
+            let d = find_default(&t.ty);
+            vob!(cx, "C07.defaults.default_is_linked_to_a_typed_value_of_its_governing_type", d.and_then(int_of) == Some(if position % 2 == 0 { 7 } else { 5 }));
+        }
+    }
+    #[cfg(kani)]
+    { let _ = cx; }
+}
+
+/// C05 — "extensible exactly when it contains an extension marker or its module header says EXTENSIBILITY IMPLIED":
+/// an anonymous ENUMERATED nested in a component, alternative or SEQUENCE OF element follows its module's header too
+/// (Rasn::generate_enumerated, reached through the synthetic definitions of nested types).
+pub fn contract_generate_nested_enumerated<C: Ctx>(cx: &mut C) {
+    #[cfg(not(kani))]
+    {
+        use crate::intermediate::types::*;
+        use crate::generator::Backend;
+        use std::{cell::RefCell, rc::Rc};
+        let implied = cx.any_bool();
+        let marker = cx.any_bool();
+        let container = cx.choose(4); // 0 top-level ENUMERATED, 1 SEQUENCE component, 2 CHOICE alternative, 3 element of a SEQUENCE OF
+        let en = ASN1Type::Enumerated(Enumerated { members: vec![Enumeral { name: "circle".into(), description: None, index: 0 }, Enumeral { name: "square".into(), description: None, index: 1 }], extensible: if marker { Some(2) } else { None }, constraints: vec![] });
+        let ty = match container {
+            0 => en,
+            1 => ASN1Type::Sequence(SequenceOrSet { components_of: vec![], extensible: None, constraints: vec![], members: vec![SequenceOrSetMember { name: "kind".into(), tag: None, ty: en, optionality: Optionality::Required, is_recursive: false, constraints: vec![] }] }),
+            2 => ASN1Type::Choice(Choice { extensible: None, constraints: vec![], options: vec![ChoiceOption { name: "kind".into(), tag: None, ty: en, constraints: vec![], is_recursive: false }] }),
+            _ => ASN1Type::SequenceOf(SequenceOrSetOf { constraints: vec![], element_type: Box::new(en), element_tag: None, is_recursive: false }),
+        };
+        cx.describe(|| format!("EXTENSIBILITY IMPLIED={implied}; ENUMERATED {{ circle, square{} }} as {}", if marker { ", ..." } else { "" }, ["type assignment", "SEQUENCE component", "CHOICE alternative", "SEQUENCE OF element"][container]));
+        let h = Rc::new(RefCell::new(ModuleHeader { name: "M".into(), module_identifier: None, encoding_reference_default: None, tagging_environment: TaggingEnvironment::Automatic,
+            extensibility_environment: if implied { ExtensibilityEnvironment::Implied } else { ExtensibilityEnvironment::Explicit }, imports: vec![], exports: None }));
+        let tld = ToplevelDefinition::Type(ToplevelTypeDefinition { comments: String::new(), tag: None, name: "T".into(), ty, parameterization: None, module_header: Some(h) });
+        let mut backend = crate::generator::rasn::Rasn::default();
+        let generated = match backend.generate_module(vec![tld]) { Ok(m) if m.warnings.is_empty() => m.generated.unwrap_or_default(), _ => { vob!(cx, "C05.generate.nested_enumerated_is_generated", false); return; } };
+        // the enum item that holds `circle`
+        let pos = generated.find("circle = 0");
+        let Some(pos) = pos else { vob!(cx, "C05.generate.nested_enumerated_is_generated", false); return; };
+        let start = generated[..pos].rfind("# [derive").unwrap_or(0);
+        let attrs = &generated[start..pos];
+        vob!(cx, "C05.generate.enumerated_at_any_position_extensible_iff_marker_or_implied", attrs.contains("non_exhaustive") == (marker || implied));
     }
     #[cfg(kani)]
     { let _ = cx; }
